@@ -62,6 +62,15 @@ func renderPlatform(c Case) string {
 	fmt.Fprintf(&sb, "  driver-type: '%s'\n", c.PlatDrv)
 	sb.WriteString("  privilege-levels:\n    exec:\n      name: 'exec'\n      pattern: '(?im)^plat[a-z]*>$'\n      previous-priv:\n      deescalate:\n      escalate:\n      escalate-auth: false\n      escalate-prompt:\n")
 	sb.WriteString("  default-desired-privilege-level: 'exec'\n  failed-when-contains:\n    - '% Invalid'\n")
+	if c.PlatOnX {
+		step := "    - operation: 'channel.write'\n      input: 'from the definition'\n"
+		sb.WriteString("  on-open:\n" + step + "  on-close:\n" + step)
+
+		if c.PlatDrv == "network" {
+			sb.WriteString("  network-on-open:\n" + step + "  network-on-close:\n" + step)
+		}
+	}
+
 	sb.WriteString("  options:\n")
 
 	for _, o := range c.Platform {
@@ -92,6 +101,10 @@ func renderPlatform(c Case) string {
 
 	if len(c.Platform) == 0 {
 		sb.WriteString("    []\n")
+	}
+
+	if c.Variant {
+		sb.WriteString("variants:\n  v1:\n    textfsm-platform: ''\n")
 	}
 
 	return sb.String()
@@ -138,6 +151,8 @@ func genPlatformOpt(t *rapid.T) Opt {
 
 func gen(t *rapid.T) Case {
 	c := Case{Ctor: rapid.SampledFrom([]string{"generic", "network", "netconf", "platform"}).Draw(t, "ctor")}
+	c.Variant = c.Ctor == "platform" && rapid.Bool().Draw(t, "variant")
+	c.PlatOnX = c.Ctor == "platform" && rapid.Bool().Draw(t, "platOnX")
 
 	n := rapid.IntRange(0, 10).Draw(t, "nOpts")
 	for i := 0; i < n; i++ {
@@ -291,7 +306,12 @@ func run(c Case) ev.Verdict {
 
 			var pl *platform.Platform
 
-			pl, err = platform.NewPlatform([]byte(renderPlatform(cc)), "h", user...)
+			if c.Variant {
+				pl, err = platform.NewPlatformVariant([]byte(renderPlatform(cc)), "v1", "h", user...)
+			} else {
+				pl, err = platform.NewPlatform([]byte(renderPlatform(cc)), "h", user...)
+			}
+
 			if err == nil {
 				if c.PlatDrv == "network" {
 					nd, err = pl.GetNetworkDriver()
@@ -548,6 +568,24 @@ func runLog(c LogCase) ev.Verdict {
 	if len(inst.Loggers) != len(wantLogs) {
 		return ev.Fail("%d loggers, want %d", len(inst.Loggers), len(wantLogs))
 	}
+
+	// "accumulate in order": called one by one, the instance's loggers are the given ones in the
+	// order given
+	for i, f := range inst.Loggers {
+		sinkMu.Lock()
+		sink = nil
+		sinkMu.Unlock()
+
+		f("probe")
+
+		if len(sink) != 1 || sink[0] != fmt.Sprintf("L%d:probe", wantLogs[i]) {
+			return ev.Fail("logger %d of the instance is %q, want logger L%d (given order %v)", i, sink, wantLogs[i], wantLogs)
+		}
+	}
+
+	sinkMu.Lock()
+	sink = nil
+	sinkMu.Unlock()
 
 	// behavioural check: a critical message reaches every logger once, formatted by the last formatter
 	inst.Critical("hello")
